@@ -11,6 +11,7 @@ package main
 
 import (
 	"fmt"
+	"go/ast"
 	"go/token"
 	"go/types"
 	"sort"
@@ -144,6 +145,7 @@ func (e gEvent) String() string {
 type gPath struct {
 	Events []gEvent
 	Lits   []string
+	Ret    gsum // stylePtr: the count returned on this path
 }
 
 func (p gPath) has(l string) bool {
@@ -165,28 +167,35 @@ const (
 	styleTpl                     // func (p SkipDecoderTpl[T]) Skip(t TType, depth int) error
 )
 
+// skipInterp enumerates the successful paths of one skipper. Calls to other
+// functions of the repository that take part in the walk (string helpers,
+// extracted element helpers, …) are expanded in place, so the result does not
+// depend on how the skipper is cut into functions.
 type skipInterp struct {
 	P      *Program
-	fn     *ssa.Function
+	root   *ssa.Function
 	style  skipStyle
-	self   func(cal *ssa.Function) bool // recursive callee?
-	strFn  func(cal *ssa.Function) bool // string-skip helper?
-	tparam *ssa.Parameter
-	pparam *ssa.Parameter // stylePtr: the cursor pointer
-	paths  []gPath
 	npaths int
+	nsym   int
 	bad    string
+}
+
+// frame is one activation: the function, what its parameters stand for.
+type frame struct {
+	fn     *ssa.Function
+	tbind  map[*ssa.Parameter]string // parameters that are type tags
+	ibind  map[*ssa.Parameter]gsum   // integer parameters
+	pparam *ssa.Parameter            // stylePtr: the cursor
+	depth  int
 }
 
 type gEnv struct {
 	phi map[*ssa.Phi]gsum
-	// symbol of the length result of a call event on this path
-	res map[*ssa.Call]string
-	n   int
+	res map[*ssa.Call]gsum // length result of a call already accounted for
 }
 
 func (e *gEnv) clone() *gEnv {
-	c := &gEnv{phi: map[*ssa.Phi]gsum{}, res: map[*ssa.Call]string{}, n: e.n}
+	c := &gEnv{phi: map[*ssa.Phi]gsum{}, res: map[*ssa.Call]gsum{}}
 	for k, v := range e.phi {
 		c.phi[k] = v
 	}
@@ -220,37 +229,25 @@ func isUnsafeAdd(v ssa.Value) *ssa.Call {
 	return nil
 }
 
-// ptrOff: offset of a pointer expression relative to the cursor parameter.
-func (I *skipInterp) ptrOff(v ssa.Value, env *gEnv) (gsum, bool) {
+func isTagType(t types.Type) bool {
+	b, ok := t.Underlying().(*types.Basic)
+	return ok && (b.Kind() == types.Int8 || b.Kind() == types.Uint8)
+}
+
+// ptrOff: offset of a pointer expression relative to the frame's cursor parameter.
+func (I *skipInterp) ptrOff(v ssa.Value, fr *frame, env *gEnv) (gsum, bool) {
 	v = stripConv(v)
-	if v == ssa.Value(I.pparam) {
+	if fr.pparam != nil && v == ssa.Value(fr.pparam) {
 		return gconst(0), true
 	}
 	if a := isUnsafeAdd(v); a != nil {
-		base, ok := I.ptrOff(a.Common().Args[0], env)
+		base, ok := I.ptrOff(a.Common().Args[0], fr, env)
 		if !ok {
 			return gsum{}, false
 		}
-		return base.add(I.eval(a.Common().Args[1], env)), true
+		return base.add(I.eval(a.Common().Args[1], fr, env)), true
 	}
 	return gsum{}, false
-}
-
-// region of a byte-slice value obtained from SkipN(n): (size, true)
-func (I *skipInterp) regionOf(v ssa.Value) (int64, *ssa.Call, bool) {
-	ex, ok := v.(*ssa.Extract)
-	if !ok || ex.Index != 0 {
-		return 0, nil, false
-	}
-	c, ok := ex.Tuple.(*ssa.Call)
-	if !ok || !I.isSkipN(c) {
-		return 0, nil, false
-	}
-	n, isC := constInt(c.Common().Args[len(c.Common().Args)-1])
-	if !isC {
-		return 0, c, false
-	}
-	return n, c, true
 }
 
 func (I *skipInterp) isSkipN(c *ssa.Call) bool {
@@ -262,12 +259,57 @@ func (I *skipInterp) isSkipN(c *ssa.Call) bool {
 	return cal != nil && baseName(cal) == "SkipN" && cal.Signature.Recv() != nil
 }
 
-// tvar names a type-tag value canonically: t (the parameter), h0/h1 (bytes 0/1
-// of a container header), f (type byte of a struct field header).
-func (I *skipInterp) tvar(v ssa.Value, env *gEnv) string {
+// regionOf: v is the byte slice returned by SkipN(n) with constant n.
+func (I *skipInterp) regionOf(v ssa.Value) (int64, bool) {
+	ex, ok := v.(*ssa.Extract)
+	if !ok || ex.Index != 0 {
+		return 0, false
+	}
+	c, ok := ex.Tuple.(*ssa.Call)
+	if !ok || !I.isSkipN(c) {
+		return 0, false
+	}
+	return constInt(c.Common().Args[len(c.Common().Args)-1])
+}
+
+// wrapsInvoke: fn's body contains exactly one call of the interface method
+// `method`, whose first argument is fn's own parameter k.
+func wrapsInvoke(fn *ssa.Function, method string) (int, bool) {
+	if fn == nil || fn.Blocks == nil {
+		return 0, false
+	}
+	k, n := -1, 0
+	for _, c := range callsIn(fn) {
+		if !isInvokeOf(c, method) {
+			if cal := c.Common().StaticCallee(); cal != nil && inRepo(cal) && cal.Blocks != nil && cal != fn {
+				// a repository call inside: not a thin wrapper unless it is pure error construction
+				if len(cal.Params) > 0 && cal.Signature.Recv() != nil {
+					return 0, false
+				}
+			}
+			continue
+		}
+		n++
+		if len(c.Common().Args) == 0 {
+			return 0, false
+		}
+		for i, p := range fn.Params {
+			if ssa.Value(p) == c.Common().Args[0] {
+				k = i
+			}
+		}
+	}
+	return k, n == 1 && k >= 0
+}
+
+// tvar names a type-tag value canonically: t (the skipper's type argument),
+// h0/h1 (bytes 0/1 of a container header), f (type byte of a struct field header).
+func (I *skipInterp) tvar(v ssa.Value, fr *frame, env *gEnv) string {
 	v = stripConv(v)
-	if v == ssa.Value(I.tparam) {
-		return "t"
+	if p, ok := v.(*ssa.Parameter); ok {
+		if n, ok := fr.tbind[p]; ok {
+			return n
+		}
 	}
 	switch x := v.(type) {
 	case *ssa.UnOp:
@@ -276,7 +318,7 @@ func (I *skipInterp) tvar(v ssa.Value, env *gEnv) string {
 		}
 		if I.style == stylePtr {
 			// constness is judged on the expression, not on the value it happens to have on this path
-			if off, ok := I.ptrOff(x.X, &gEnv{phi: map[*ssa.Phi]gsum{}, res: map[*ssa.Call]string{}}); ok {
+			if off, ok := I.ptrOff(x.X, fr, &gEnv{phi: map[*ssa.Phi]gsum{}, res: map[*ssa.Call]gsum{}}); ok {
 				if len(off.t) == 0 {
 					return fmt.Sprintf("h%d", off.c)
 				}
@@ -284,7 +326,7 @@ func (I *skipInterp) tvar(v ssa.Value, env *gEnv) string {
 			}
 		}
 		if ia, ok := x.X.(*ssa.IndexAddr); ok {
-			if n, _, ok := I.regionOf(ia.X); ok {
+			if n, ok := I.regionOf(ia.X); ok {
 				k, isC := constInt(ia.Index)
 				if isC && n == 1 && k == 0 {
 					return "f"
@@ -314,11 +356,10 @@ func (I *skipInterp) tvar(v ssa.Value, env *gEnv) string {
 			}
 		}
 	case *ssa.Phi:
-		// a loop-carried copy of one tag
 		names := map[string]bool{}
 		for _, e := range x.Edges {
 			if e != ssa.Value(x) {
-				names[I.tvar(e, env)] = true
+				names[I.tvar(e, fr, env)] = true
 			}
 		}
 		if len(names) == 1 {
@@ -331,16 +372,20 @@ func (I *skipInterp) tvar(v ssa.Value, env *gEnv) string {
 }
 
 // eval renders an integer value as a symbolic sum.
-func (I *skipInterp) eval(v ssa.Value, env *gEnv) gsum {
+func (I *skipInterp) eval(v ssa.Value, fr *frame, env *gEnv) gsum {
 	switch x := v.(type) {
 	case *ssa.Const:
 		if k, ok := constInt(x); ok {
 			return gconst(k)
 		}
+	case *ssa.Parameter:
+		if s, ok := fr.ibind[x]; ok {
+			return s
+		}
 	case *ssa.Convert:
-		return I.eval(x.X, env)
+		return I.eval(x.X, fr, env)
 	case *ssa.ChangeType:
-		return I.eval(x.X, env)
+		return I.eval(x.X, fr, env)
 	case *ssa.Phi:
 		if s, ok := env.phi[x]; ok {
 			return s
@@ -348,25 +393,25 @@ func (I *skipInterp) eval(v ssa.Value, env *gEnv) gsum {
 	case *ssa.BinOp:
 		switch x.Op {
 		case token.ADD:
-			return I.eval(x.X, env).add(I.eval(x.Y, env))
+			return I.eval(x.X, fr, env).add(I.eval(x.Y, fr, env))
 		case token.SUB:
-			return I.eval(x.X, env).sub(I.eval(x.Y, env))
+			return I.eval(x.X, fr, env).sub(I.eval(x.Y, fr, env))
 		case token.MUL:
-			return I.eval(x.X, env).mul(I.eval(x.Y, env))
+			return I.eval(x.X, fr, env).mul(I.eval(x.Y, fr, env))
 		}
 	case *ssa.UnOp:
 		if x.Op == token.MUL {
 			// typeToSize[uint8(tag)]
 			if ia, ok := x.X.(*ssa.IndexAddr); ok {
-				if g, ok := ia.X.(*ssa.Global); ok && g.Name() == "typeToSize" {
-					return gsym("FIX(" + I.tvar(ia.Index, env) + ")")
+				if g, ok := ia.X.(*ssa.Global); ok && isSizeTable(I.P, g) {
+					return gsym("FIX(" + I.tvar(ia.Index, fr, env) + ")")
 				}
 			}
 		}
 	case *ssa.Extract:
 		if c, ok := x.Tuple.(*ssa.Call); ok {
-			if s, ok := env.res[c]; ok && x.Index == 0 && I.style == stylePtr {
-				return gsym(s)
+			if s, ok := env.res[c]; ok && x.Index == 0 {
+				return s
 			}
 			if cal := c.Common().StaticCallee(); cal != nil {
 				switch {
@@ -381,9 +426,13 @@ func (I *skipInterp) eval(v ssa.Value, env *gEnv) gsum {
 		}
 	case *ssa.Call:
 		com := x.Common()
+		if s, ok := env.res[x]; ok {
+			return s
+		}
 		if cal := com.StaticCallee(); cal != nil {
-			if cal.Name() == "p2i32" && len(com.Args) == 1 {
-				if off, ok := I.ptrOff(com.Args[0], env); ok && len(off.t) == 0 {
+			// a 32-bit big-endian load through a raw pointer (signature func(unsafe.Pointer) int32)
+			if inRepo(cal) && len(com.Args) == 1 && isUnsafePointer(com.Args[0].Type()) && isInteger(x.Type()) {
+				if off, ok := I.ptrOff(com.Args[0], fr, env); ok && len(off.t) == 0 {
 					return gsym(fmt.Sprintf("W@%d", off.c))
 				}
 			}
@@ -396,7 +445,7 @@ func (I *skipInterp) eval(v ssa.Value, env *gEnv) gsum {
 					}
 					arg = sl.X
 				}
-				if _, _, ok := I.regionOf(arg); ok {
+				if _, ok := I.regionOf(arg); ok {
 					return gsym(fmt.Sprintf("W@%d", off))
 				}
 			}
@@ -405,8 +454,14 @@ func (I *skipInterp) eval(v ssa.Value, env *gEnv) gsum {
 	return gsym("?" + v.Name())
 }
 
-// literal renders a branch decision canonically ("" = not a grammar literal).
-func (I *skipInterp) literals(cond ssa.Value, taken bool, env *gEnv) []string {
+// isSizeTable: a package-level [256]int8-like array of the thrift package indexed by a tag.
+func isSizeTable(P *Program, g *ssa.Global) bool {
+	arr, ok := deref(g.Type()).Underlying().(*types.Array)
+	return ok && arr.Len() == 256 && g.Pkg != nil && g.Pkg.Pkg.Path() == modPath+"/"+relThrift
+}
+
+// literals renders a branch decision canonically.
+func (I *skipInterp) literals(cond ssa.Value, taken bool, fr *frame, env *gEnv) []string {
 	var out []string
 	for _, dc := range condImplies(cond, taken, 0) {
 		bo, ok := dc.Cond.(*ssa.BinOp)
@@ -416,13 +471,10 @@ func (I *skipInterp) literals(cond ssa.Value, taken bool, env *gEnv) []string {
 		switch bo.Op {
 		case token.EQL, token.NEQ:
 			k, isC := constInt(bo.Y)
-			if !isC {
+			if !isC || !isTagType(stripConv(bo.X).Type()) {
 				continue
 			}
-			if b, ok := stripConv(bo.X).Type().Underlying().(*types.Basic); !ok || (b.Kind() != types.Int8 && b.Kind() != types.Uint8) {
-				continue
-			}
-			tv := I.tvar(bo.X, env)
+			tv := I.tvar(bo.X, fr, env)
 			if strings.HasPrefix(tv, "?") {
 				continue
 			}
@@ -431,24 +483,41 @@ func (I *skipInterp) literals(cond ssa.Value, taken bool, env *gEnv) []string {
 			} else {
 				out = append(out, fmt.Sprintf("%s!=%d", tv, k))
 			}
-		case token.GTR:
-			if k, isC := constInt(bo.Y); isC && k == 0 {
-				if s, ok := I.eval(bo.X, env).isSym(); ok && strings.HasPrefix(s, "FIX(") {
-					if dc.Truth {
+		case token.GTR, token.LSS, token.LEQ, token.GEQ:
+			x, y, op := bo.X, bo.Y, bo.Op
+			// normalise  0 < x  /  x > 0  /  x >= 1 ...
+			if k, isC := constInt(x); isC && k == 0 && (op == token.LSS || op == token.GEQ) {
+				x, y = y, x
+				if op == token.LSS {
+					op = token.GTR
+				} else {
+					op = token.LEQ
+				}
+			}
+			if k, isC := constInt(y); isC && k == 0 && (op == token.GTR || op == token.LEQ) {
+				if s, ok := I.eval(x, fr, env).isSym(); ok && strings.HasPrefix(s, "FIX(") {
+					if (op == token.GTR) == dc.Truth {
 						out = append(out, s+">0")
 					} else {
 						out = append(out, s+"<=0")
 					}
+					continue
 				}
 			}
-		case token.LSS:
-			// loop continuation j < bound, with j a loop counter starting at 0 and stepping by 1
-			if ph, ok := stripConv(bo.X).(*ssa.Phi); ok && I.isCounter(ph) {
-				bound := I.eval(bo.Y, env)
-				if dc.Truth {
-					out = append(out, "iter:"+bound.String())
-				} else {
-					out = append(out, "done:"+bound.String())
+			// loop continuation j < bound (or bound > j), with j a counter starting at 0 and stepping by 1
+			cnt, bnd := bo.X, bo.Y
+			cont := bo.Op == token.LSS
+			if bo.Op == token.GTR {
+				cnt, bnd, cont = bo.Y, bo.X, true
+			}
+			if cont {
+				if ph, ok := stripConv(cnt).(*ssa.Phi); ok && isCounter(ph) {
+					bound := I.eval(bnd, fr, env)
+					if dc.Truth {
+						out = append(out, "iter:"+bound.String())
+					} else {
+						out = append(out, "done:"+bound.String())
+					}
 				}
 			}
 		}
@@ -457,7 +526,7 @@ func (I *skipInterp) literals(cond ssa.Value, taken bool, env *gEnv) []string {
 }
 
 // isCounter: phi [0, phi+1].
-func (I *skipInterp) isCounter(ph *ssa.Phi) bool {
+func isCounter(ph *ssa.Phi) bool {
 	if len(ph.Edges) != 2 {
 		return false
 	}
@@ -489,7 +558,7 @@ func negLit(l string) string {
 	return ""
 }
 
-// isErrorValue: v certainly denotes a non-nil error (so the path is not a success path).
+// isKnownError: v certainly denotes a non-nil error (so the path is not a success path).
 func isKnownError(v ssa.Value) bool {
 	switch x := v.(type) {
 	case *ssa.UnOp:
@@ -509,64 +578,115 @@ func isKnownError(v ssa.Value) bool {
 	return false
 }
 
-func (I *skipInterp) run() {
-	fn := I.fn
-	type state struct {
-		b      *ssa.BasicBlock
-		env    *gEnv
-		events []gEvent
-		lits   []string
-		seen   map[*ssa.BasicBlock]int
-		cur    gsum // stylePtr: bytes accounted for so far
-		errs   map[ssa.Value]bool
+type walkState struct {
+	b      *ssa.BasicBlock
+	idx    int
+	env    *gEnv
+	events []gEvent
+	lits   []string
+	seen   map[*ssa.BasicBlock]int
+	cur    gsum // stylePtr: bytes accounted for so far
+	errs   map[ssa.Value]bool
+}
+
+func (st walkState) fork() walkState {
+	ns := st
+	ns.env = st.env.clone()
+	ns.events = append([]gEvent{}, st.events...)
+	ns.lits = append([]string{}, st.lits...)
+	ns.seen = map[*ssa.BasicBlock]int{}
+	for k, v := range st.seen {
+		ns.seen[k] = v
 	}
-	emitGap := func(st *state, upto gsum, pos token.Pos) {
-		gap := upto.sub(st.cur)
-		if gap.c != 0 {
-			st.events = append(st.events, gEvent{Kind: "H", Amt: gconst(gap.c), Pos: pos})
+	ns.errs = map[ssa.Value]bool{}
+	for k, v := range st.errs {
+		ns.errs[k] = v
+	}
+	return ns
+}
+
+func lastEq11(lits []string) string {
+	for i := len(lits) - 1; i >= 0; i-- {
+		if strings.HasSuffix(lits[i], "=11") && !strings.Contains(lits[i], "!=") {
+			return strings.TrimSuffix(lits[i], "=11")
 		}
-		rest := gsum{t: map[string]int64{}}
-		var fix []string
-		for k, v := range gap.t {
-			if strings.HasPrefix(k, "FIX(") && v == 1 {
-				fix = append(fix, k)
-			} else {
-				rest.t[k] = v
+	}
+	return "?"
+}
+
+func (st *walkState) emit(e gEvent) {
+	e.Lits = append([]string{}, st.lits...)
+	st.events = append(st.events, e)
+}
+
+// emitGap accounts for the bytes between what has been accounted for and upto.
+func (st *walkState) emitGap(upto gsum, pos token.Pos) {
+	gap := upto.sub(st.cur)
+	if gap.c != 0 {
+		st.emit(gEvent{Kind: "H", Amt: gconst(gap.c), Pos: pos})
+	}
+	rest := gsum{t: map[string]int64{}}
+	var fix []string
+	for k, v := range gap.t {
+		if strings.HasPrefix(k, "FIX(") && v == 1 {
+			fix = append(fix, k)
+		} else {
+			rest.t[k] = v
+		}
+	}
+	sort.Strings(fix)
+	for _, k := range fix {
+		st.emit(gEvent{Kind: "E", Form: "FIX", X: strings.TrimSuffix(strings.TrimPrefix(k, "FIX("), ")"), Pos: pos})
+	}
+	if len(rest.t) > 0 {
+		st.emit(gEvent{Kind: "N", Amt: rest, Pos: pos})
+	}
+	st.cur = upto
+}
+
+// run enumerates the successful paths of the root skipper.
+func (I *skipInterp) run(tparam *ssa.Parameter) []gPath {
+	fr := &frame{fn: I.root, tbind: map[*ssa.Parameter]string{}, ibind: map[*ssa.Parameter]gsum{}}
+	if tparam != nil {
+		fr.tbind[tparam] = "t"
+	}
+	if I.style == stylePtr {
+		for _, p := range I.root.Params {
+			if isUnsafePointer(p.Type()) {
+				fr.pparam = p
+				break
 			}
 		}
-		sort.Strings(fix)
-		for _, k := range fix {
-			st.events = append(st.events, gEvent{Kind: "E", Form: "FIX", X: strings.TrimSuffix(strings.TrimPrefix(k, "FIX("), ")"), Pos: pos})
-		}
-		if len(rest.t) > 0 {
-			st.events = append(st.events, gEvent{Kind: "N", Amt: rest, Pos: pos})
-		}
-		st.cur = upto
 	}
-	lastEq11 := func(lits []string) string {
-		for i := len(lits) - 1; i >= 0; i-- {
-			if strings.HasSuffix(lits[i], "=11") && !strings.Contains(lits[i], "!=") {
-				return strings.TrimSuffix(lits[i], "=11")
-			}
-		}
-		return "?"
+	return I.paths(fr)
+}
+
+// paths enumerates the successful paths of one activation.
+func (I *skipInterp) paths(fr *frame) []gPath {
+	var out []gPath
+	fn := fr.fn
+	if fn.Blocks == nil || fr.depth > 4 {
+		I.bad = "cannot expand " + fn.Name()
+		return nil
 	}
-	var walk func(st state)
-	walk = func(st state) {
-		if I.npaths > 200000 {
+	var walk func(st walkState)
+	walk = func(st walkState) {
+		if I.npaths > 300000 {
 			I.bad = "too many paths"
 			return
 		}
-		for _, in := range st.b.Instrs {
+		for st.idx < len(st.b.Instrs) {
+			in := st.b.Instrs[st.idx]
+			st.idx++
 			if bo, isBo := in.(*ssa.BinOp); isBo && I.style == stylePtr && bo.Op == token.ADD && isPlainInt(bo.Type()) {
 				// an addition onto the running cursor: account for the addend in program order
 				for _, pair := range [][2]ssa.Value{{bo.X, bo.Y}, {bo.Y, bo.X}} {
-					d := I.eval(pair[0], st.env).sub(st.cur)
+					d := I.eval(pair[0], fr, st.env).sub(st.cur)
 					if len(d.t) == 0 && d.c >= 0 {
 						if _, isConst := pair[0].(*ssa.Const); isConst && d.c > 0 {
 							continue
 						}
-						emitGap(&st, I.eval(bo, st.env), bo.Pos())
+						st.emitGap(I.eval(bo, fr, st.env), bo.Pos())
 						break
 					}
 				}
@@ -576,88 +696,29 @@ func (I *skipInterp) run() {
 			if !ok {
 				continue
 			}
-			cal := c.Common().StaticCallee()
-			args := c.Common().Args
-			switch I.style {
-			case stylePtr:
-				if cal == nil || !(I.self(cal) || I.strFn(cal)) {
-					continue
+			forks, handled := I.onCall(&st, fr, c)
+			if handled && forks != nil {
+				for _, ns := range forks {
+					walk(ns)
 				}
-				off, ok := I.ptrOff(args[0], st.env)
-				if !ok {
-					I.bad = "cursor argument of " + cal.Name() + " is not an offset from p"
-					continue
-				}
-				if d := off.sub(st.cur); len(d.t) != 0 || d.c < 0 {
-					I.bad = fmt.Sprintf("%s is called at offset %s while %s bytes have been accounted for", cal.Name(), off.String(), st.cur.String())
-				}
-				emitGap(&st, off, c.Pos())
-				st.env.n++
-				sym := fmt.Sprintf("R#%d", st.env.n)
-				st.env.res[c] = sym
-				if I.strFn(cal) {
-					st.events = append(st.events, gEvent{Kind: "E", Form: "STR", X: lastEq11(st.lits), Pos: c.Pos()})
-				} else {
-					st.events = append(st.events, gEvent{Kind: "E", Form: "REC", X: I.tvar(args[2], st.env), Pos: c.Pos()})
-				}
-				st.cur = off.add(gsym(sym))
-			case styleStream:
-				if cal == nil || cal.Signature.Recv() == nil || len(args) == 0 || args[0] != ssa.Value(fn.Params[0]) {
-					continue
-				}
-				switch {
-				case I.self(cal):
-					st.events = append(st.events, gEvent{Kind: "E", Form: "REC", X: I.tvar(args[1], st.env), Pos: c.Pos()})
-				case I.strFn(cal):
-					st.events = append(st.events, gEvent{Kind: "E", Form: "STR", X: lastEq11(st.lits), Pos: c.Pos()})
-				case cal.Name() == "skipn":
-					st.events = append(st.events, gEvent{Kind: "N", Amt: I.eval(args[1], st.env), Pos: c.Pos()})
-				case cal.Name() == "ReadMapBegin":
-					st.events = append(st.events, gEvent{Kind: "H", Amt: gconst(6), Pos: c.Pos()})
-				case cal.Name() == "ReadListBegin" || cal.Name() == "ReadSetBegin":
-					st.events = append(st.events, gEvent{Kind: "H", Amt: gconst(5), Pos: c.Pos()})
-				case cal.Name() == "ReadFieldBegin":
-					st.events = append(st.events, gEvent{Kind: "HF", Pos: c.Pos()})
-				case cal.Name() == "ReadI32":
-					st.events = append(st.events, gEvent{Kind: "H", Amt: gconst(4), Pos: c.Pos()})
-				case strings.HasPrefix(cal.Name(), "Read") || cal.Name() == "next" || cal.Name() == "readBinary":
-					I.bad = "unexpected consuming call " + cal.Name()
-				}
-			case styleTpl:
-				switch {
-				case I.isSkipN(c):
-					st.events = append(st.events, gEvent{Kind: "N", Amt: I.eval(args[len(args)-1], st.env), Pos: c.Pos()})
-				case cal != nil && I.self(cal):
-					st.events = append(st.events, gEvent{Kind: "E", Form: "REC", X: I.tvar(args[1], st.env), Pos: c.Pos()})
-				}
-			}
-		}
-		for i := range st.events {
-			if st.events[i].Lits == nil {
-				st.events[i].Lits = append([]string{}, st.lits...)
+				return
 			}
 		}
 		last := st.b.Instrs[len(st.b.Instrs)-1]
 		if ret, ok := last.(*ssa.Return); ok {
 			ev := ret.Results[len(ret.Results)-1]
-			if isKnownError(ev) || st.errs[ev] {
+			if isErrorType(ev.Type()) && (isKnownError(ev) || st.errs[ev]) {
 				return
 			}
-			if ph, ok := ev.(*ssa.Phi); ok {
-				_ = ph
-			}
-			if I.style == stylePtr {
-				// a propagated (n, err) pair of a callee: its n is already the last event
-				tot := I.eval(ret.Results[0], st.env)
-				emitGap(&st, tot, ret.Pos())
-				for i := range st.events {
-					if st.events[i].Lits == nil {
-						st.events[i].Lits = append([]string{}, st.lits...)
-					}
-				}
+			p := gPath{Lits: st.lits}
+			if I.style == stylePtr && len(ret.Results) == 2 {
+				tot := I.eval(ret.Results[0], fr, st.env)
+				st.emitGap(tot, ret.Pos())
+				p.Ret = tot
 			}
 			I.npaths++
-			I.paths = append(I.paths, gPath{Events: normEvents(st.events), Lits: st.lits})
+			p.Events = normEvents(st.events)
+			out = append(out, p)
 			return
 		}
 		if _, ok := last.(*ssa.Panic); ok {
@@ -668,13 +729,8 @@ func (I *skipInterp) run() {
 			if st.seen[s] >= 3 {
 				continue
 			}
-			ns := state{b: s, env: st.env.clone(), events: append([]gEvent{}, st.events...), lits: append([]string{}, st.lits...), seen: map[*ssa.BasicBlock]int{}, cur: st.cur, errs: map[ssa.Value]bool{}}
-			for k, v := range st.seen {
-				ns.seen[k] = v
-			}
-			for k, v := range st.errs {
-				ns.errs[k] = v
-			}
+			ns := st.fork()
+			ns.b, ns.idx = s, 0
 			ns.seen[s]++
 			if s.Dominates(st.b) {
 				// a loop comes round: the per-iteration field tag is read afresh
@@ -705,7 +761,7 @@ func (I *skipInterp) run() {
 					continue
 				}
 				contradiction := false
-				for _, l := range I.literals(iff.Cond, si == 0, st.env) {
+				for _, l := range I.literals(iff.Cond, si == 0, fr, st.env) {
 					if n := negLit(l); n != "" {
 						for _, old := range ns.lits {
 							if old == n {
@@ -731,7 +787,7 @@ func (I *skipInterp) run() {
 					break
 				}
 				if isInteger(ph.Type()) {
-					ns.env.phi[ph] = I.eval(ph.Edges[idx], st.env)
+					ns.env.phi[ph] = I.eval(ph.Edges[idx], fr, st.env)
 				}
 				if isErrorType(ph.Type()) {
 					if isKnownError(ph.Edges[idx]) || st.errs[ph.Edges[idx]] {
@@ -742,7 +798,160 @@ func (I *skipInterp) run() {
 			walk(ns)
 		}
 	}
-	walk(state{b: fn.Blocks[0], env: &gEnv{phi: map[*ssa.Phi]gsum{}, res: map[*ssa.Call]string{}}, seen: map[*ssa.BasicBlock]int{fn.Blocks[0]: 1}, cur: gconst(0), errs: map[ssa.Value]bool{}})
+	walk(walkState{b: fn.Blocks[0], env: &gEnv{phi: map[*ssa.Phi]gsum{}, res: map[*ssa.Call]gsum{}}, seen: map[*ssa.BasicBlock]int{fn.Blocks[0]: 1}, cur: gconst(0), errs: map[ssa.Value]bool{}})
+	return out
+}
+
+// subFrame binds the parameters of callee to the caller's argument values.
+func (I *skipInterp) subFrame(fr *frame, env *gEnv, callee *ssa.Function, args []ssa.Value) *frame {
+	sub := &frame{fn: callee, tbind: map[*ssa.Parameter]string{}, ibind: map[*ssa.Parameter]gsum{}, depth: fr.depth + 1}
+	for i, p := range callee.Params {
+		if i >= len(args) {
+			break
+		}
+		switch {
+		case isUnsafePointer(p.Type()) && sub.pparam == nil && I.style == stylePtr:
+			sub.pparam = p
+		case isTagType(p.Type()):
+			sub.tbind[p] = I.tvar(args[i], fr, env)
+		case isInteger(p.Type()):
+			sub.ibind[p] = I.eval(args[i], fr, env)
+		}
+	}
+	return sub
+}
+
+// splice continues st once per successful path of an expanded callee.
+func (I *skipInterp) splice(st *walkState, c *ssa.Call, subs []gPath, self bool, selfTag string) []walkState {
+	var forks []walkState
+	for _, sp := range subs {
+		ns := st.fork()
+		// literals first (they guard the events of the callee)
+		contradiction := false
+		for _, l := range sp.Lits {
+			if n := negLit(l); n != "" {
+				for _, old := range ns.lits {
+					if old == n {
+						contradiction = true
+					}
+				}
+			}
+			ns.lits = append(ns.lits, l)
+		}
+		if contradiction {
+			continue
+		}
+		evs := sp.Events
+		if len(evs) == 2 && evs[0].String() == "H4" && evs[1].String() == "N[W@0]" {
+			// 4-byte length followed by that many bytes: one string
+			ns.emit(gEvent{Kind: "E", Form: "STR", X: lastEq11(ns.lits), Pos: c.Pos()})
+		} else {
+			for _, e := range evs {
+				ns.events = append(ns.events, e)
+			}
+		}
+		forks = append(forks, ns)
+	}
+	return forks
+}
+
+// onCall interprets one call. It returns handled=true with the continuation
+// states when the call forks the walk (expanded helper); handled=false or nil
+// forks mean the walk simply goes on in st.
+func (I *skipInterp) onCall(st *walkState, fr *frame, c *ssa.Call) ([]walkState, bool) {
+	com := c.Common()
+	cal := com.StaticCallee()
+	args := com.Args
+	newSym := func() gsum {
+		I.nsym++
+		return gsym(fmt.Sprintf("R#%d", I.nsym))
+	}
+	switch I.style {
+	case stylePtr:
+		if cal == nil || !inRepo(cal) || cal.Blocks == nil || len(args) == 0 || !isUnsafePointer(args[0].Type()) {
+			return nil, false
+		}
+		res := cal.Signature.Results()
+		if res.Len() != 2 || !isErrorType(res.At(1).Type()) {
+			return nil, false // e.g. the raw 32-bit load helper
+		}
+		off, ok := I.ptrOff(args[0], fr, st.env)
+		if !ok {
+			I.bad = "cursor argument of " + cal.Name() + " is not an offset from the cursor"
+			return nil, false
+		}
+		if d := off.sub(st.cur); len(d.t) != 0 || d.c < 0 {
+			I.bad = fmt.Sprintf("%s is called at offset %s while %s bytes have been accounted for", cal.Name(), off.String(), st.cur.String())
+		}
+		st.emitGap(off, c.Pos())
+		sym := newSym()
+		if cal == I.root {
+			tag := "?"
+			for i, p := range cal.Params {
+				if isTagType(p.Type()) && i < len(args) {
+					tag = I.tvar(args[i], fr, st.env)
+				}
+			}
+			st.emit(gEvent{Kind: "E", Form: "REC", X: tag, Pos: c.Pos()})
+			st.env.res[c] = sym
+			st.cur = off.add(sym)
+			return nil, true
+		}
+		subs := I.paths(I.subFrame(fr, st.env, cal, args))
+		forks := I.splice(st, c, subs, false, "")
+		for i := range forks {
+			forks[i].env.res[c] = sym
+			forks[i].cur = off.add(sym)
+		}
+		return forks, true
+	case styleStream:
+		if cal == nil || cal.Signature.Recv() == nil || len(args) == 0 || args[0] != ssa.Value(fr.fn.Params[0]) {
+			if com.IsInvoke() {
+				switch com.Method.Name() {
+				case "Next", "Skip", "ReadBinary", "Peek":
+					I.bad = "direct reader call " + com.Method.Name() + " in the skipper"
+				}
+			}
+			return nil, false
+		}
+		switch {
+		case cal == I.root:
+			st.emit(gEvent{Kind: "E", Form: "REC", X: I.tvar(args[1], fr, st.env), Pos: c.Pos()})
+		case cal.Name() == "ReadMapBegin":
+			st.emit(gEvent{Kind: "H", Amt: gconst(6), Pos: c.Pos()})
+		case cal.Name() == "ReadListBegin" || cal.Name() == "ReadSetBegin":
+			st.emit(gEvent{Kind: "H", Amt: gconst(5), Pos: c.Pos()})
+		case cal.Name() == "ReadFieldBegin":
+			st.emit(gEvent{Kind: "HF", Pos: c.Pos()})
+		case cal.Name() == "ReadI32":
+			st.emit(gEvent{Kind: "H", Amt: gconst(4), Pos: c.Pos()})
+		default:
+			if k, ok := wrapsInvoke(cal, "Skip"); ok {
+				st.emit(gEvent{Kind: "N", Amt: I.eval(args[k], fr, st.env), Pos: c.Pos()})
+				return nil, true
+			}
+			if cal.Blocks != nil && inRepo(cal) && !ast.IsExported(cal.Name()) {
+				subs := I.paths(I.subFrame(fr, st.env, cal, args))
+				return I.splice(st, c, subs, false, ""), true
+			}
+			if strings.HasPrefix(cal.Name(), "Read") || strings.HasPrefix(cal.Name(), "Skip") {
+				I.bad = "unexpected consuming call " + cal.Name()
+			}
+		}
+		return nil, true
+	case styleTpl:
+		switch {
+		case I.isSkipN(c):
+			st.emit(gEvent{Kind: "N", Amt: I.eval(args[len(args)-1], fr, st.env), Pos: c.Pos()})
+		case cal != nil && cal == I.root:
+			st.emit(gEvent{Kind: "E", Form: "REC", X: I.tvar(args[1], fr, st.env), Pos: c.Pos()})
+		case cal != nil && inRepo(cal) && cal.Blocks != nil && cal.Signature.Recv() != nil && len(args) > 0 && args[0] == ssa.Value(fr.fn.Params[0]) && !ast.IsExported(baseName(cal)):
+			subs := I.paths(I.subFrame(fr, st.env, cal, args))
+			return I.splice(st, c, subs, false, ""), true
+		}
+		return nil, true
+	}
+	return nil, false
 }
 
 // normEvents merges adjacent constant amounts and turns single-FIX amounts into element events.
@@ -925,39 +1134,68 @@ func checkC02(P *Program, r *Result, tier string) {
 		"STR-HELPER (the string-skip helpers consume 4 + the 32-bit length), ACCUM (each decoder's SkipN hands out exactly the next n bytes after the bytes already accumulated and advances the counter by n on success only; the counter restarts at 0 whenever a new value or input begins), " +
 		"DECODER-BYTES (Next returns exactly the accumulated window), IOREADER (ReaderSkipDecoder.SkipN can never read past the n bytes asked for)."
 	type target struct {
-		fn    *ssa.Function
-		style skipStyle
-		name  string
+		fn     *ssa.Function
+		style  skipStyle
+		tparam *ssa.Parameter
 	}
 	var targets []target
-	ptr := P.Func(relThrift, "skipType")
-	pstr := P.Func(relThrift, "skipstr")
-	strm := P.Method(relThrift, "BufferReader", "skipType")
-	sstr := P.Method(relThrift, "BufferReader", "skipstr")
+	// anchors: the exported entry points; the recursive workers are found from them by signature
+	pubSkip := P.Method(relThrift, "BinaryProtocol", "Skip")
+	strmSkip := P.Method(relThrift, "BufferReader", "Skip")
 	tpls := P.Instances(relThrift, "SkipDecoderTpl", "Skip")
-	if !r.require("thrift.skipType, skipstr, BufferReader.skipType/skipstr", ptr != nil && pstr != nil && strm != nil && sstr != nil) || !r.require("three instances of SkipDecoderTpl.Skip", len(tpls) >= 3) {
+	if !r.require("thrift.BinaryProtocol.Skip, BufferReader.Skip", pubSkip != nil && strmSkip != nil) || !r.require("three instances of SkipDecoderTpl.Skip", len(tpls) >= 3) {
 		return
 	}
-	targets = append(targets, target{ptr, stylePtr, "skipType"}, target{strm, styleStream, "BufferReader.skipType"})
+	tagParam := func(fn *ssa.Function) *ssa.Parameter {
+		for i, p := range fn.Params {
+			if i == 0 && fn.Signature.Recv() != nil {
+				continue
+			}
+			if isTagType(p.Type()) {
+				return p
+			}
+		}
+		return nil
+	}
+	worker := func(entry *ssa.Function) *ssa.Function {
+		// the recursive function the entry point delegates to (itself if it recurses directly)
+		for _, c := range callsIn(entry) {
+			cal := c.Common().StaticCallee()
+			if cal == nil || !inRepo(cal) || cal.Blocks == nil || tagParam(cal) == nil {
+				continue
+			}
+			for _, c2 := range callsIn(cal) {
+				if c2.Common().StaticCallee() == cal {
+					return cal
+				}
+			}
+			// recursion through a helper
+			for _, f := range P.reachable([]*ssa.Function{cal}, func(f *ssa.Function) bool { return !inRepo(f) }) {
+				for _, c2 := range callsIn(f) {
+					if c2.Common().StaticCallee() == cal && f != entry {
+						return cal
+					}
+				}
+			}
+		}
+		return nil
+	}
+	ptr, strm := worker(pubSkip), worker(strmSkip)
+	if !r.require("the recursive workers behind BinaryProtocol.Skip and BufferReader.Skip", ptr != nil && strm != nil) {
+		return
+	}
+	targets = append(targets, target{ptr, stylePtr, tagParam(ptr)}, target{strm, styleStream, tagParam(strm)})
 	for _, t := range tpls {
-		targets = append(targets, target{t, styleTpl, shortName(t)})
+		targets = append(targets, target{t, styleTpl, tagParam(t)})
 	}
 	for _, t := range targets {
 		fn := t.fn
 		r.Funcs[shortName(fn)] = true
-		I := &skipInterp{P: P, fn: fn, style: t.style}
-		I.self = func(cal *ssa.Function) bool { return cal == fn }
-		I.strFn = func(cal *ssa.Function) bool { return cal == pstr || cal == sstr }
-		switch t.style {
-		case stylePtr:
-			I.pparam, I.tparam = fn.Params[0], fn.Params[2]
-		default:
-			I.tparam = fn.Params[1]
-		}
-		I.run()
+		I := &skipInterp{P: P, root: fn, style: t.style}
+		paths := I.run(t.tparam)
 		classes := map[string]int{}
 		bad := 0
-		for _, p := range I.paths {
+		for _, p := range paths {
 			d := validatePath(p, t.style)
 			cls := "?"
 			for _, l := range p.Lits {
@@ -984,41 +1222,14 @@ func checkC02(P *Program, r *Result, tier string) {
 			cl = append(cl, fmt.Sprintf("%s:%d", k, n))
 		}
 		sort.Strings(cl)
-		okAll := bad == 0 && I.bad == "" && len(I.paths) > 0
+		okAll := bad == 0 && I.bad == "" && len(paths) > 0
 		for _, need := range []string{"FIX(t)>0", "t=11", "t=12", "t=13", "t=14", "t=15"} {
 			if classes[need] == 0 {
 				okAll = false
 				I.bad = "no successful path for class " + need
 			}
 		}
-		r.add("GRAMMAR", shortName(fn), "paths", fmt.Sprintf("all %d successful paths (%s) are sentences of the value grammar", len(I.paths), strings.Join(cl, " ")), P.pos(fn.Pos()), okAll, I.bad)
-	}
-	// ---- STR-HELPER ----
-	{
-		I := &skipInterp{P: P, fn: pstr, style: stylePtr, pparam: pstr.Params[0]}
-		I.self = func(*ssa.Function) bool { return false }
-		I.strFn = I.self
-		I.run()
-		ok := len(I.paths) == 1 && len(I.paths[0].Events) == 2 && I.paths[0].Events[0].String() == "H4" && I.paths[0].Events[1].String() == "N[W@0]"
-		d := ""
-		if !ok && len(I.paths) > 0 {
-			d = fmt.Sprint(I.paths[0].Events)
-		}
-		r.Funcs[shortName(pstr)] = true
-		r.add("STR-HELPER", shortName(pstr), "paths", "returns 4 + the 32-bit length read at the cursor", P.pos(pstr.Pos()), ok, d)
-	}
-	{
-		I := &skipInterp{P: P, fn: sstr, style: styleStream}
-		I.self = func(*ssa.Function) bool { return false }
-		I.strFn = I.self
-		I.run()
-		ok := len(I.paths) == 1 && len(I.paths[0].Events) == 2 && I.paths[0].Events[0].String() == "H4" && I.paths[0].Events[1].String() == "N[W@0]"
-		d := ""
-		if !ok && len(I.paths) > 0 {
-			d = fmt.Sprint(I.paths[0].Events)
-		}
-		r.Funcs[shortName(sstr)] = true
-		r.add("STR-HELPER", shortName(sstr), "paths", "consumes the 4-byte length and then that many bytes", P.pos(sstr.Pos()), ok, d)
+		r.add("GRAMMAR", shortName(fn), "paths", fmt.Sprintf("all %d successful paths (%s) are sentences of the value grammar", len(paths), strings.Join(cl, " ")), P.pos(fn.Pos()), okAll, I.bad)
 	}
 	c02Decoders(P, r)
 }
